@@ -1323,6 +1323,39 @@ impl<'ast, 'p> Visit<'ast> for Ctx<'p> {
                 }
             }
         }
+        // R29: Option combinators taking a closure, with a one-identifier closure parameter -> the `match` std defines them as
+        //   o.is_some_and(|x| E) -> match o { Some(x) => E, None => false }      o.is_none_or(|x| E) -> .. None => true
+        //   o.map_or(D, |x| E)   -> match o { Some(x) => E, None => D }
+        if verified {
+            let name = m.method.to_string();
+            let shape = match (name.as_str(), m.args.len()) {
+                ("is_some_and", 1) => Some((0usize, Some("false"))),
+                ("is_none_or", 1) => Some((0usize, Some("true"))),
+                ("map_or", 2) => Some((1usize, None)),
+                _ => None,
+            };
+            if let Some((ci, dflt)) = shape {
+                if let syn::Expr::Closure(c) = &m.args[ci] {
+                    let simple = c.inputs.len() == 1 && matches!(&c.inputs[0], syn::Pat::Ident(pi) if pi.by_ref.is_none() && pi.subpat.is_none())
+                        && c.capture.is_none() && c.asyncness.is_none() && matches!(c.output, syn::ReturnType::Default);
+                    if simple {
+                        let (rs, re) = br(m.receiver.span());
+                        let (ps, pe) = br(c.inputs[0].span());
+                        let (bs, be) = br(c.body.span());
+                        let mut parts = vec![Part::Lit("(match ".into()), Part::Src(rs, re), Part::Lit(" { Some(".into()), Part::Src(ps, pe), Part::Lit(") => { ".into()), Part::Src(bs, be), Part::Lit(" }, None => { ".into())];
+                        match dflt {
+                            Some(d) => parts.push(Part::Lit(d.into())),
+                            None => { let (ds_, de_) = br(m.args[0].span()); parts.push(Part::Src(ds_, de_)); }
+                        }
+                        parts.push(Part::Lit(" } })".into()));
+                        self.replace(s, e, parts);
+                        self.log(s, "R29", &format!("Option::{}(closure) -> match (std's definition)", name));
+                        visit::visit_expr_method_call(self, m);
+                        return;
+                    }
+                }
+            }
+        }
         // R3
         if verified {
             let name = m.method.to_string();
